@@ -251,7 +251,9 @@ def never_compare(io, never_line):
 
 
 # ------------------------------------------------------------------ ref-counted link collections (no model)
-RC_HOLDS = {"p": ("q", "ps"), "q": ("p", "qs")}   # ids of store p are held by the set ps of q entities
+# ids of store p are held by the sets ps (root-level collection), cps and xps (collections whose other side is a child
+# store: pc.cqs <-> q.cps, qx.xps <-> p.xqs of the RCC database) of q entities, and the other way round
+RC_HOLDS = {"p": ("q", ("ps", "cps", "xps")), "q": ("p", ("qs", "cqs", "xqs"))}
 
 
 def rc_oracle(case, obs):
@@ -269,15 +271,15 @@ def rc_oracle(case, obs):
             _, R, X, res = t.split(":")
             if "E:%s:%s" % (R, X) in facts:
                 continue     # created again in the same transaction
-            other, field = RC_HOLDS[R]
+            other, fields = RC_HOLDS[R]
             probs = []
             for f in facts:
                 p = f.split(":")
                 if p[0] == "JUNK":
                     probs.append(f)
-                elif p[0] == "RC" and p[1] == R and p[2] == X:
+                elif p[0] in ("RC", "C") and p[1] == R and p[2] == X:
                     probs.append(f)
-                elif p[0] == "RC" and p[1] == other and p[3] == field and p[4] == X:
+                elif p[0] == "RC" and p[1] == other and p[3] in fields and p[4] == X:
                     probs.append(f)
                 elif p[0] == "U" and R in p[1:-2] and p[-1] == X:
                     probs.append(f)
